@@ -5,6 +5,11 @@ import "strings"
 // allSpecs is the registry of harnesses per property. Bounds registered here are
 // the ones that run clean (no unwinding failure, no budget hit) on the unchanged tree.
 var allSpecs = []HarnessSpec{
+	{Prop: "C01", Func: "ZZ_C01_Deps", Tag: "shape=0", POR: true, Replay: "native", Twin: true, Params: map[string]int{"shape": 0}},
+	{Prop: "C01", Func: "ZZ_C01_Deps", Tag: "shape=1", POR: true, Replay: "native", Params: map[string]int{"shape": 1}},
+	{Prop: "C01", Func: "ZZ_C01_Deps", Tag: "shape=2", POR: true, Replay: "native", Params: map[string]int{"shape": 2}},
+	{Prop: "C01", Func: "ZZ_C01_Deps", Tag: "shape=3", POR: true, Replay: "native", Params: map[string]int{"shape": 3}},
+	{Prop: "C01", Func: "ZZ_C01_Deps", Tag: "shape=4", POR: true, Replay: "native", Params: map[string]int{"shape": 4}},
 	{Prop: "C08", Pkg: "taskfile/ast", Func: "ZZ_C08_DeepCopy", Replay: "native"},
 	{Prop: "C08", Pkg: "taskfile/ast", Func: "ZZ_C08_Merge", Replay: "native"},
 	{Prop: "C10", Pkg: "", Func: "ZZ_C10_Vars", Replay: "native", Twin: true},
@@ -28,7 +33,7 @@ func specsFor(prop, tier, filter string) []HarnessSpec {
 		if s.Tiers != "" && s.Tiers != tier {
 			continue
 		}
-		if filter != "" && !strings.Contains(s.Func, filter) {
+		if filter != "" && !strings.Contains(s.name(), filter) {
 			continue
 		}
 		out = append(out, s)
